@@ -22,3 +22,30 @@ Theorem C07_m32_init_convert_identity : M32_init_convert_stmt.            Proof.
 Print Assumptions C07_m32_init_convert_identity.
 Theorem C07_m32_constants_and_predicates : M32_constants_predicates_stmt. Proof. exact M32_constants_predicates. Qed.
 Print Assumptions C07_m32_constants_and_predicates.
+
+(* Part 2: RecInt rmint<K,MG_ACTIVE>, rmint<K,MG_INACTIVE>, Givaro::Montgomery<ruint<K>>, for every K = k + 6.
+   RecMod k p: p odd and 1 < p < Bk k = 2^(2^K).  The statements are the *_stmt definitions of ProofsRec.v. *)
+From C07 Require Import ProofsRec.
+
+Theorem C07_recint_arazi_qi_inverse_mod_B : Arazi_qi_stmt.                 Proof. exact arazi_qi_spec. Qed.
+Print Assumptions C07_recint_arazi_qi_inverse_mod_B.
+Theorem C07_recint_module_constants_exact : Module_constants_stmt.          Proof. exact Module_constants. Qed.
+Print Assumptions C07_recint_module_constants_exact.
+Theorem C07_recint_reduction_is_redc : Reduction_stmt.                      Proof. exact Reduction. Qed.
+Print Assumptions C07_recint_reduction_is_redc.
+Theorem C07_recint_inv_mod_units : Inv_mod_stmt.                            Proof. exact Inv_mod. Qed.
+Print Assumptions C07_recint_inv_mod_units.
+Theorem C07_rmint_mga_ops_are_plain_residues : MGA_ops_stmt.                Proof. exact MGA_ops. Qed.
+Print Assumptions C07_rmint_mga_ops_are_plain_residues.
+Theorem C07_rmint_mga_inv_div_exp_partial : MGA_inv_div_exp_stmt.           Proof. exact MGA_inv_div_exp. Qed.
+Print Assumptions C07_rmint_mga_inv_div_exp_partial.
+Theorem C07_rmint_mga_construction_reduces : MGA_ctor_stmt.                 Proof. exact MGA_ctor. Qed.
+Print Assumptions C07_rmint_mga_construction_reduces.
+Theorem C07_rmint_mgi_ops_are_plain_residues : MGI_ops_stmt.                Proof. exact MGI_ops. Qed.
+Print Assumptions C07_rmint_mgi_ops_are_plain_residues.
+Theorem C07_rmint_mga_mgi_agree : MGA_MGI_agree_stmt.                       Proof. exact MGA_MGI_agree. Qed.
+Print Assumptions C07_rmint_mga_mgi_agree.
+Theorem C07_montgomery_ruint_ops_are_plain_residues : MR_ops_stmt.          Proof. exact MR_ops. Qed.
+Print Assumptions C07_montgomery_ruint_ops_are_plain_residues.
+Theorem C07_montgomery_ruint_inv_div_init_constants : MR_inv_div_init_stmt. Proof. exact MR_inv_div_init. Qed.
+Print Assumptions C07_montgomery_ruint_inv_div_init_constants.
